@@ -139,6 +139,8 @@ def make_environ(req, stream, content_length='equal', extra=None):
         pass
     elif content_length == 'empty':
         env['CONTENT_LENGTH'] = ''
+    elif content_length == 'garbage':
+        env['CONTENT_LENGTH'] = 'abc'
     else:
         env['CONTENT_LENGTH'] = str(int(content_length))
     if getattr(req, 'env', None):
